@@ -305,6 +305,48 @@ func (f *FuncCFG) lastAssignBefore(b *cfg.Block, idx int, v types.Object) (*ast.
 	return nil, false
 }
 
+// reachingDef is one assignment to a variable that can reach a program point.
+type reachingDef struct {
+	At  Point
+	Rhs ast.Expr // the assigned expression (the call, for a tuple assignment)
+}
+
+// ReachingDefs returns every assignment to v that reaches pt (backwards over the CFG, each
+// path stops at the first assignment found) and whether the function entry is also reachable
+// backwards without any assignment (v is then a parameter or is used before being set).
+func (f *FuncCFG) ReachingDefs(pt Point, v types.Object) (defs []reachingDef, fromEntry bool) {
+	preds := f.preds()
+	seen := map[*cfg.Block]bool{}
+	var walk func(b *cfg.Block, idx int)
+	walk = func(b *cfg.Block, idx int) {
+		for i := idx - 1; i >= 0; i-- {
+			if as, ok := b.Nodes[i].(*ast.AssignStmt); ok {
+				for li, l := range as.Lhs {
+					if objOfIdent(f.Info, l) == v {
+						rhs := as.Rhs[0]
+						if len(as.Rhs) == len(as.Lhs) {
+							rhs = as.Rhs[li]
+						}
+						defs = append(defs, reachingDef{Point{b, i}, rhs})
+						return
+					}
+				}
+			}
+		}
+		if b == f.G.Blocks[0] {
+			fromEntry = true
+		}
+		for _, pb := range preds[b] {
+			if !seen[pb] {
+				seen[pb] = true
+				walk(pb, len(pb.Nodes))
+			}
+		}
+	}
+	walk(pt.B, pt.I)
+	return
+}
+
 func (f *FuncCFG) preds() map[*cfg.Block][]*cfg.Block {
 	m := map[*cfg.Block][]*cfg.Block{}
 	for _, b := range f.G.Blocks {
